@@ -132,7 +132,10 @@ def run(ctx):
             rq.headers.append([h for h in rq.headers if h[0] == "authorization"][0]); valid = "badsig"
         else:
             rq = R.anonymous(c)
-            rq.headers.append(("authorization", rng.choice(["Bearer abcdef", "AWS4-HMAC-SHA256 garbage", "Basic dXNlcjpwYXNz", "AWS4-HMAC-SHA256 Credential=x", "AWS"])))
+            # (the last two: a header value with a byte outside visible ASCII is still a presented - and unverifiable - signature)
+            opaque = ["AWS4-HMAC-SHA256 Credential=caf\u00e9/20130524/us-east-1/s3/aws4_request, SignedHeaders=host, Signature=" + "ab" * 32, "AWS " + S.AK + ":sign\u00e9ture="]
+            rq.headers.append(("authorization", opaque[(it // 20) % 2] if (it // 10) % 2 == 0 else
+                               rng.choice(["Bearer abcdef", "AWS4-HMAC-SHA256 garbage", "Basic dXNlcjpwYXNz", "AWS4-HMAC-SHA256 Credential=x", "AWS"])))
             valid = "badsig"
         if cfg["host"]:
             pass   # host header s3.example.com equals the base domain: path-style through the parser
